@@ -216,8 +216,9 @@ TIMELINE = [("twop", ("b1", "e1"), {}), ("twop", ("e1", "b2"), {"safe_area": 5, 
             ("nested", ("s1b", "s3e"), {"bg_color": sp.NamedColors.black.value, "color": sp.NamedColors.white.value}),
             ("nested", ("pb", "s1e"), {}), ("brset", ("ab", "ae"), {}), ("styled", ("pb", "pe"), {"color": sp.NamedColors.red.value}),
             ("styled", ("ab", "ae"), {"preserve_text_align": True}), ("moving", ("ab", "ae"), {}), ("ruby", ("rub", "rue"), {})]
-# (two regions with SYMBOLIC intervals cannot go through the filter in the proof tier: it keys a dict by a tuple that holds the interval,
-#  and hashing a symbolic number is outside pyvc's fragment -- the shape `tworegions` is used with concrete near-equal times in rtc/c16.py)
+# two regions that the filter merges exactly when their intervals are EQUAL: any two begins / ends, however close (the filter keys a dict
+# by a tuple that holds the interval; pyvc.core.vc_dict compares such keys by value, forking on every symbolic comparison)
+TIMELINE += [("tworegions", ("q1b", "q2b"), {}), ("tworegions", ("q1e", "q2e"), {"safe_area": 5}), ("tworegions", ("q1b", "q1e", "q2b", "q2e"), {})]
 
 
 def all_harnesses():
